@@ -211,7 +211,10 @@ def coo_append(coo, tup):
         coo_sum_duplicates(coo)
         if (coo.key.shape[0] - np.abs(coo.min[0])) <= COO_QUICKSORT_LIMIT:
             merge_all_sum_duplicates(coo)
-            if coo.ind[0] >= 0.95 * coo.key.shape[0]:
+            if (
+                coo.ind[0] >= 0.95 * coo.key.shape[0]
+                or coo.ind[0] >= coo.key.shape[0] - 1
+            ):
                 coo = coo_increase_mem(coo)
 
     return coo
